@@ -73,6 +73,7 @@ impl TableRefresh {
             // a round sends at most 4 find_node queries (8-byte transaction ids of the refresh action) and nothing else
             only_requests_and_yields(old(tr).ev, final(tr).ev), no_yield(old(tr).ev, final(tr).ev), final(tr).ev.len() <= old(tr).ev.len() + 8, // @C18.round_is_at_most_4_queries
             forall|i: int| old(tr).ev.len() <= i < final(tr).ev.len() && #[trigger] final(tr).ev[i] is Send ==> refresh_query(final(tr).ev[i]->Send_0, old(self).id_generator.action_id), // @C19.refresh_queries_carry_8_byte_ids_of_the_refresh_action
+            forall|i: int| old(tr).ev.len() <= i < final(tr).ev.len() && #[trigger] final(tr).ev[i] is Send ==> blen(final(tr).ev[i]->Send_0) <= 1500, // @C17.refresh_queries_fit_1500_bytes
     {
         proof { lemma_consts(); }
         let ghost ev0 = tr.ev;
@@ -112,6 +113,7 @@ impl TableRefresh {
                 *timer == *old(timer),
                 only_requests_and_yields(ev0, tr.ev), no_yield(ev0, tr.ev), tr.ev.len() == ev0.len() + 2 * it.index@,
                 forall|i: int| ev0.len() <= i < tr.ev.len() && #[trigger] tr.ev[i] is Send ==> refresh_query(tr.ev[i]->Send_0, old(self).id_generator.action_id),
+                forall|i: int| ev0.len() <= i < tr.ev.len() && #[trigger] tr.ev[i] is Send ==> blen(tr.ev[i]->Send_0) <= 1500, // @C17.refresh_queries_fit_1500_bytes
         {
             // Generate a transaction id for the request
             let trans_id = self.id_generator.generate();
@@ -267,6 +269,11 @@ impl DhtHandler {
                               && (a.port is Some ==> sa_port(k.1) == a.port->0) && (a.port is None ==> k.1 == addr)
                               && final(self).active_stores.expires@.drop_last() == e0.filter(not_key(k)) }))
                 &&& (r.body is Error && r.body->Error_0.code == 202 ==> final(self).active_stores.expires@ == e0 && e0.len() >= 500) }), // @C07.announce_stores_source_ip_with_port_or_refuses_202
+            // ---- C17: every reply fits the 1500-byte receive buffer of its peer (transaction ids up to 32 bytes)
+            !old(self).read_only && message.transaction_id@.len() <= 32 && (message.body matches MessageBody::Request(Request::Ping(_))) ==> blen(reply(delta(old(tr).ev, final(tr).ev))) <= 1500, // @C17.ping_reply_fits_1500_bytes
+            !old(self).read_only && message.transaction_id@.len() <= 32 && (message.body matches MessageBody::Request(Request::FindNode(_))) ==> blen(reply(delta(old(tr).ev, final(tr).ev))) <= 1500, // @C17.find_node_reply_fits_1500_bytes
+            !old(self).read_only && message.transaction_id@.len() <= 32 && (message.body matches MessageBody::Request(Request::GetPeers(_))) ==> blen(reply(delta(old(tr).ev, final(tr).ev))) <= 1500, // @C17.get_peers_reply_fits_1500_bytes
+            !old(self).read_only && message.transaction_id@.len() <= 32 && (message.body matches MessageBody::Request(Request::AnnouncePeer(_))) ==> blen(reply(delta(old(tr).ev, final(tr).ev))) <= 1500, // @C17.announce_reply_fits_1500_bytes
             // ---- C12: a response with a transaction id of the wrong length changes nothing
             message.body is Response && message.transaction_id@.len() != 8 ==> res is Err && final(tr).ev == old(tr).ev, // @C12.wrong_length_tid_rejected
             message.body is Response && message.transaction_id@.len() == 8 ==> ({
@@ -276,6 +283,7 @@ impl DhtHandler {
             // ---- C05: responses are never answered: whatever a response triggers, it is queries only
             message.body is Response ==> sends_only_requests(old(tr).ev, final(tr).ev), // @C05.responses_never_answered
     {
+        proof { reveal_strlit("received an invalid token"); reveal_strlit("announce storage is full"); } // @C17.error_texts
         // Do not process requests if we are read only
         // TODO: Add read only flags to messages we send it we are read only!
         // Also, check for read only flags on responses we get before adding nodes
